@@ -133,13 +133,19 @@ def spec_build(case):
 
 
 def spec_vars(case):
+    """every position of every listed compound, 1/len(requested) on the requested ones; a requested position that no
+    listed compound has (beyond the compound's positions, or of a compound that is not listed) becomes a variable of
+    its own with that value - the code writes `variables[f"{compound}__{pos}"]` without looking (observation: such a
+    variable takes part in no reaction)"""
     init = dict((k, v) for k, v in case.get("init", []))
-    out = []
+    vals = {}
     for x, n in case["lv"]:
         for i in range(n):
-            pos = init.get(x, [])
-            out.append([f"{x}__{i}", num(Fraction(1, len(pos))) if i in pos else "0"])
-    return sorted(out)
+            vals[f"{x}__{i}"] = "0"
+    for x, pos in case.get("init", []):
+        for i in pos:
+            vals[f"{x}__{i}"] = num(Fraction(1, len(pos)))
+    return sorted([k, v] for k, v in vals.items())
 
 
 # --------------------------------------------------------------------------- real code
@@ -796,6 +802,10 @@ def random_case(rng):
         if labels[c] and rng.random() < 0.3:
             # 1 / len(positions) must be exact in a double: 1 or 2 positions
             init.append([c, sorted(rng.sample(range(labels[c]), rng.randint(1, min(2, labels[c]))))])
+    if cpds and rng.random() < 0.04:
+        # a requested position beyond the compound's positions, or for a compound that carries no labels here
+        c = rng.choice(cpds)
+        init = [e for e in init if e[0] != c] + [[c, sorted({rng.randrange(max(labels[c], 1)), labels[c] + rng.randint(0, 2)})]]
     case = make_case(tpl, labels, maps, init=init)
     if rng.random() < 0.04:
         case = with_raw(case, rng.choice(tpl)[0], rng.choice(["ints", "floats", "half", "derived"]))
